@@ -17,6 +17,8 @@ pub struct RepRun {
     server: Box<dyn Server>,
     obs: ObsHandle,
     _dir: Option<tempfile::TempDir>,
+    /// where the SQLite database lives (None: in memory)
+    pub path: Option<std::path::PathBuf>,
     pub stats: HashMap<String, u64>,
     stale_undo: Option<Vec<Operation>>,
     /// this case may commit operations with untrue old values / invalid operations
@@ -113,24 +115,45 @@ fn parse_op_groups(toks: &[&str]) -> Option<Vec<Operation>> {
 
 impl RepRun {
     pub fn new(sqlite: bool) -> RepRun {
-        let chain = new_chain(1, snap_fmt);
-        let (st, dir) = if sqlite {
+        if sqlite {
             let dir = tempfile::TempDir::new_in(crate::work_dir()).unwrap();
-            let s = block_on(SqliteStorage::new(dir.path(), AccessMode::ReadWrite, true)).unwrap();
-            (AnyStorage::Sql(s), Some(dir))
+            let p = dir.path().to_path_buf();
+            let mut r = RepRun::new_at(Some(p));
+            r._dir = Some(dir);
+            r
         } else {
-            (AnyStorage::Mem(InMemoryStorage::new()), None)
+            RepRun::new_at(None)
+        }
+    }
+
+    /// a replica on the SQLite database in `path` (created if missing), or in memory
+    pub fn new_at(path: Option<std::path::PathBuf>) -> RepRun {
+        let chain = new_chain(1, snap_fmt);
+        let st = match &path {
+            Some(p) => AnyStorage::Sql(block_on(SqliteStorage::new(p, AccessMode::ReadWrite, true)).unwrap()),
+            None => AnyStorage::Mem(InMemoryStorage::new()),
         };
         let (os, obs) = ObsStorage::new(st);
         RepRun {
             replica: Replica::new(os),
             server: Box::new(RefHandle { chain, rid: 0 }),
             obs,
-            _dir: dir,
+            _dir: None,
+            path,
             stats: HashMap::new(),
             stale_undo: None,
             wild: false,
         }
+    }
+
+    /// the process restarts: everything in memory is gone, the database is opened again
+    pub fn reopen(&mut self) {
+        let Some(p) = self.path.clone() else { return };
+        let st = AnyStorage::Sql(block_on(SqliteStorage::new(&p, AccessMode::ReadWrite, true)).unwrap());
+        let (os, obs) = ObsStorage::new(st);
+        self.replica = Replica::new(os);
+        self.obs = obs;
+        self.obs.lock().unwrap().probe = true;
     }
 
     fn stat(&mut self, k: &str) {
@@ -188,6 +211,30 @@ impl RepRun {
         let bad = || (line.to_string(), vec!["bad-op".to_string()]);
         match toks.as_slice() {
             ["N", ..] => (line.to_string(), vec!["new".into()]),
+            ["F", k, rest @ ..] => {
+                // the action `rest` with the k-th storage call from now failing (the transaction is
+                // abandoned), then a restart: what is stored is the state before the action, after it,
+                // or — for actions made of two transactions — in between
+                let k: usize = k.parse().unwrap_or(1);
+                let rest: Vec<&str> = if ["before", "after", "mid"].contains(rest.first().unwrap_or(&"")) { rest[1..].to_vec() } else { rest.to_vec() };
+                let commits0 = {
+                    let mut o = self.obs.lock().unwrap();
+                    o.failed = false;
+                    o.fail_at = Some(o.calls + k);
+                    o.commits
+                };
+                let (nl, outs) = self.exec(&rest.join(" "));
+                let (failed, commits) = {
+                    let mut o = self.obs.lock().unwrap();
+                    o.fail_at = None;
+                    (o.failed, o.commits)
+                };
+                let outcome = if !failed { "after" } else if commits == commits0 { "before" } else { "mid" };
+                self.stat(&format!("fault.{}", outcome));
+                self.reopen();
+                let outs = if outcome == "after" { outs } else { vec![format!("interrupted {}", outcome)] };
+                (format!("F {} {} {}", k, outcome, nl), outs)
+            }
             ["X", _n, rest @ ..] => match parse_op_groups(rest) {
                 Some(ops) => {
                     let r = block_on(self.replica.commit_operations(ops));
@@ -202,7 +249,10 @@ impl RepRun {
                 (line.to_string(), vec![format!("undo {}", fmt_op_list(&ops))])
             }
             ["U", ..] => {
-                let ops = block_on(self.replica.get_undo_operations()).unwrap();
+                let ops = match block_on(self.replica.get_undo_operations()) {
+                    Ok(o) => o,
+                    Err(_) => return (line.to_string(), vec!["error".into()]),
+                };
                 let r = self.undo_result(ops);
                 self.stat(&format!("undo_{}", r));
                 (format!("U : {}", self.order()).trim_end().to_string(), vec![r])
